@@ -18,8 +18,9 @@ DriverRule(e) ==        \* e = the write event, which carries the descriptor
   IF \E i \in DOMAIN e.sol.pps : LET p == e.sol.pps[i] IN
         ~(Admits(p.kind, p.model) /\ p.cost \in CostsOf(p.model) /\ p.vtype \in VTypes) THEN "driver/inadmissible-case"
   ELSE IF \E i \in DOMAIN e.sol.pps : LET p == e.sol.pps[i] IN
-        p.steps # Asc(p.steps) \/ Len(p.vals) # Len(p.steps) \/ \E s \in DOMAIN p.vals : Len(p.vals[s]) # NV(p.kind)
+        Cardinality(Range(p.steps)) # Len(p.steps) \/ Len(p.steps) = 0 \/ Len(p.vals) # Len(p.steps) \/ \E s \in DOMAIN p.vals : Len(p.vals[s]) # NV(p.kind)
        THEN "driver/case-shape"
+  ELSE IF e.sol.route \notin Routes THEN "driver/route"
   ELSE IF Cardinality({e.sol.pps[i].ppid : i \in DOMAIN e.sol.pps}) # Len(e.sol.pps) THEN "driver/duplicate-ppid"
   ELSE IF e.fields # [i \in 1..Len(e.sol.pps) |-> Fields[e.sol.pps[i].kind]] THEN "driver/field-table"
   ELSE ""
@@ -39,9 +40,17 @@ Back(e, sol) ==
             IF e.ttypes = [i \in 1..n |-> TrajName[rb.trajs[i].kind]] THEN "" ELSE "C14.TrajectoryType"
        [] e.what = "TimeSteps" ->
             IF e.steps = [i \in 1..n |-> rb.trajs[i].steps] THEN "" ELSE "C14.TimeSteps"
-       [] e.what = "Values" ->
-            IF e.vals = [i \in 1..n |-> [s \in 1..Len(pp[i].steps) |-> [j \in 1..NV(pp[i].kind) |->
-                            IF rb.trajs[i].vals[s][j] = pp[i].vals[s][j] THEN "exact" ELSE "differs"]]]
+       [] e.what = "Values" ->     \* e.vals[i][r][j] = the written states (indices in document order) whose leaf j is
+                                   \* bit-identical to leaf j of the read-back state at position r
+            IF /\ Len(e.vals) = n
+               /\ \A i \in 1..n :
+                    /\ Len(e.vals[i]) = Len(pp[i].steps)
+                    /\ \A r \in 1..Len(pp[i].steps) :
+                         LET src == SrcState(pp[i].steps, r) IN
+                         /\ Len(e.vals[i][r]) = NV(pp[i].kind)
+                         /\ \A j \in 1..NV(pp[i].kind) :
+                              /\ rb.trajs[i].vals[r][j] = pp[i].vals[src][j]
+                              /\ \E k \in DOMAIN e.vals[i][r][j] : e.vals[i][r][j][k] = src
             THEN "" ELSE "C14.Values"
        [] e.what = "ComputationTime" ->
             IF e.ct = Same(rb.ct, sol.ct, "exact") THEN "" ELSE "C14.ComputationTime"
